@@ -112,6 +112,13 @@ def configs(tier):
                 out.append(dict(ref=ref, m=m, ann=two, op="corpus", flags=list(fl), include_ref=True, bound=1,
                                 boundary=False))
     out.append(dict(ref="s2", m=0.7, ann=2, op="corpus", flags=["shift"], include_ref=False, bound=1, extra=["zz"]))
+    # ---- requested annotator names that include the reference annotator's own name (legal without include_ref)
+    for ref, names in (("s2", ["ref", "other"]), ("t2", ["alpha", "beta"]), ("s3", ["ref"])):
+        for m in (0.3, 1.0):
+            for fl in ([f] for f in FLAGS):
+                out.append(dict(ref=ref, m=m, ann=names, op="corpus", flags=fl, include_ref=False,
+                                bound=1 if q else 2, boundary=False))
+            out.append(dict(ref=ref, m=m, ann=names, op="corpus", flags=list(FLAGS), include_ref=False, bound=1))
     # ---- non-initial states: the same tool object already produced a corpus at another magnitude
     for ref in ("s3", "t2"):
         for m in (0.0, 0.3):
